@@ -341,6 +341,14 @@ impl<'o, T: Elem> Exec<'o, T> {
                 let after: Vec<u32> = td.data().iter().map(|e| e.val()).collect();
                 self.tok(format!("indep={}", b01(before == after)));
             }
+            Op::CloneFrom(c, r, l) => {
+                // `td.clone_from(&src)`: afterwards `td` must equal `src`; the source is dropped at the end of the step
+                let o = TooDee::from_vec(*c, *r, mkvec::<T>(l));
+                self.arm();
+                td.clone_from(&o);
+                self.disarm();
+                self.tok(format!("eq={}", b01(*td == o)));
+            }
             Op::Eq(c, r, l) => {
                 let o = TooDee::from_vec(*c, *r, mkvec::<T>(l));
                 self.arm();
